@@ -307,13 +307,13 @@ func c10ShapePeer(r *vfRand, shape int, ids [][]byte) *pb.Message_Peer {
 		return c10BoundaryPeer(r, id, -1, 2+r.Intn(3), 1, pb.MaxPeerRecordSize)
 	case 12: // one under the limit
 		return c10BoundaryPeer(r, id, 2, 2+r.Intn(4), -1, pb.MaxPeerRecordSize)
-	case 13: // many small addresses crossing the limit
+	case 13: // a few hundred small addresses crossing the limit
 		p := &pb.Message_Peer{Id: id, Connection: pb.Message_ConnectionType(c10Conns[r.Intn(len(c10Conns))])}
-		for i := 0; i < 700+r.Intn(200); i++ {
+		for i := 0; i < 230+r.Intn(60); i++ {
 			if r.Chance(10) {
 				p.Addrs = append(p.Addrs, c10BadAddr(r, 3))
 			} else {
-				p.Addrs = append(p.Addrs, c10OkAddr(r, 8+r.Intn(3)))
+				p.Addrs = append(p.Addrs, c10OkAddr(r, 30+r.Intn(12)))
 			}
 		}
 		return p
@@ -1010,8 +1010,7 @@ func c10RunStream(t *testing.T, i int, seed uint64, c c10Rpc, cancelAt time.Dura
 	d := c10NewDict()
 	d.tag(nil)
 	rpcCoq := c.coq(d)
-	s1, m1 := c10AttemptStream(a1, d)
-	s2, m2 := c10AttemptStream(a2, d)
+	var m1, m2 string
 	var out, kind string
 	var callErr error
 	var elapsed time.Duration
@@ -1029,6 +1028,10 @@ func c10RunStream(t *testing.T, i int, seed uint64, c c10Rpc, cancelAt time.Dura
 			}
 		}()
 		synctest.Test(t, func(t *testing.T) {
+			// the streams' channels must belong to the bubble
+			var s1, s2 *c10Stream
+			s1, m1 = c10AttemptStream(a1, d)
+			s2, m2 = c10AttemptStream(a2, d)
 			h := c10NewHost(peer.ID("c10-local"))
 			h.streams = []*c10Stream{s1, s2}
 			sender := dhtnet.NewMessageSenderImpl(h, []protocol.ID{"/verif/kad/1.0.0"})
@@ -1371,7 +1374,7 @@ func TestVerifC10(t *testing.T) {
 	seed := vfSeed()
 	n := vfEnvInt("VERIF_N", 400)
 	only := vfOnly()
-	cs := vfNewCases("Run_C10", 60)
+	cs := vfNewCases("Run_C10", 40)
 	if network.MessageSizeMax != 1<<22 {
 		t.Fatalf("network.MessageSizeMax = %d, the model transcribes 4 MiB", network.MessageSizeMax)
 	}
